@@ -69,6 +69,7 @@ def validate_exec_traces(ctx, execs, invs, name=None):
            f"  FixEmpty = {'TRUE' if VARIANT.get('FixEmpty') else 'FALSE'}", "  ResetFirst = TRUE",
            f"  AtomicCallback = {'TRUE' if VARIANT.get('AtomicCallback') else 'FALSE'}",
            f"  FixAncestorWalk = {'TRUE' if VARIANT.get('FixAncestorWalk') else 'FALSE'}",
+           f"  ResubmitUnderLock = {'TRUE' if VARIANT.get('ResubmitUnderLock', True) else 'FALSE'}",
            "CONSTRAINT Progress", "CONSTRAINT Prune"] + [f"INVARIANT {i}" for i in invs] + ["POSTCONDITION Accepted", "CHECK_DEADLOCK FALSE"]
     bound = {"C09": {"OnDone", "Build", "ExReturn", "BodyStart"}, "C10": {"Ckpt", "BodyEnd", "ParentCkpt"},
              "C07": {"EvSet", "ExReturn", "Resubmit", "Refresh", "BodyStart"}, "C06": {"EvSet", "ExReturn", "BodyEnd", "Refresh"}, "C08": set()}
